@@ -394,3 +394,50 @@ A(R("ren-extended", ["C06"], TT, "Mapping2D3D.extended_dot_bracket", {"rows": "l
 A(R("ren-process-line", ["C19"], AD, "_process_interaction_line", {"parts": "cols", "nt1": "left", "nt2": "right", "interaction_type": "label", "nt1_residue": "r1", "nt2_residue": "r2", "interaction_category": "category", "classification": "cls_"}))
 A(R("ren-copy", ["C20"], TR, "copy_from_to", {"attributes": "names", "transformed": "rows_out", "category_obj": "cat", "row": "r", "i": "src", "j": "dst"}))
 A(R("ren-without-isolated", ["C12"], C, "BpSeq.without_isolated", {"to_unpair": "lonely", "entries": "copied", "stems": "helices", "stem": "helix"}))
+
+
+# ---------------------------------------------------------------- round 3: fact-level rules of checks/c01e.py
+# The encoders of common.py are decided at fact level first (fragments evaluated on every class of a finite input
+# partition); the pinned-form rule ids above stay valid for the fallback.  Either id counts.
+ALSO = {
+    "c01-conflict-convert": ["conflict-graph-fact"],
+    "c01-conflict-all": ["conflict-graph-fact"],
+    "c01-conflict-fcfs-drop": ["fcfs-first-fit"],
+    "c01-fill-offby1": ["fill-stores"],
+    "c01-fill-trips": ["fill-stores"],
+    "c01-fill-dir": ["fill-stores"],
+    "c01-fill-bracket-swap": ["fill-stores", "alphabet-agree"],
+    "c01-run-cond": ["stems-run-fact"],
+    "c01-fromdb-shift": ["from-db-fact"],
+    "c01-fromdb-drop": ["from-db-fact"],
+    "c01-fcfs-range": ["fcfs-first-fit"],
+    "c01-fcfs-break": ["fcfs-first-fit"],
+    "c01-fcfs-avail-hoist": ["fcfs-first-fit"],
+    "c01-fcfs-region-swap": ["region-triple", "fcfs-first-fit"],
+    "c01-fcfs-region-last": ["region-triple", "fcfs-first-fit"],
+    "c13-fcfs-count-false": ["fcfs-first-fit"],
+    "c13-fcfs-last-free": ["fcfs-first-fit"],
+    "c13-handler-reraise": ["solve-handled"],
+    "c13-objective-fmt": ["never-raises"],
+    "c13-status-infeasible-only": ["fallback-is-fcfs"],
+    "c13-drop-status": ["fallback-is-fcfs"],
+    "c02-name-swap": ["milp-one-level"],
+    "c02-readback-swap": ["milp-one-level"],
+    "c02-graph-oneway": ["conflict-graph-fact"],
+    "c02-pairs-short": ["conflict-graph-fact"],
+    "c02-length-first": ["milp-objective-coeff"],
+    "c16-greedy-range": ["enumeration-fact"],
+    "c16-available-small": ["enumeration-fact"],
+    "c16-perm-k": ["enumeration-fact"],
+    "c16-perm-identity": ["enumeration-fact"],
+    "c16-zip": ["enumeration-fact"],
+    "c16-pop-early": ["enumeration-fact"],
+    "c16-default-missing": ["enumeration-fact"],
+    "c16-early-exit": ["enumeration-fact"],
+    "c16-mark-wrong": ["enumeration-fact"],
+    "c12-isolated-3p": ["isolated-select"],
+    "c12-isolated-guard": ["isolated-select"],
+}
+for _m in MUTANTS:
+    if _m["id"] in ALSO and _m.get("rule") is not None:
+        _m["rule"] = ([_m["rule"]] if isinstance(_m["rule"], str) else list(_m["rule"])) + [r for r in ALSO[_m["id"]] if r not in ([_m["rule"]] if isinstance(_m["rule"], str) else _m["rule"])]
